@@ -9,6 +9,8 @@ from harness import build, tlc  # noqa: E402
 bad = 0
 for p in sorted(glob.glob(os.path.join(VERIF, "spec", "*.tla"))):
     m = os.path.basename(p)[:-4]
+    if m.endswith("Proofs"):
+        continue          # EXTENDS TLAPS: parsed and checked by tlapm below, not by SANY
     ok, out = tlc.sany(m)
     print("SANY %-28s %s" % (m, "ok" if ok else "FAILED"))
     if not ok:
